@@ -230,11 +230,32 @@ def check_rotate(rep):
     other_q = [e["target"] for e in st if e["target"].startswith("Q_") and part(e["target"]) not in ((1, 3), (4, 5))]
     if other_q:
         raise AnalysisBroken("StaticSite::Rotate writes parts of Q_ the rule does not interpret: %s" % other_q)
-    ok, why = len(ps) == 1 and len(dp) == 1 and len(qd) == 1, "expected one update each of the position, the dipole part and the quadrupole part (found %d/%d/%d)" % (len(ps), len(dp), len(qd))
+    ok, why = len(ps) >= 1 and len(dp) == 1 and len(qd) == 1, "expected updates of the position, the dipole part and the quadrupole part (found %d/%d/%d)" % (len(ps), len(dp), len(qd))
     if ok:
+        # the position the site ends up with (one assignment or several in-place steps), for a reference point that is an independent vector
         want_pos = ref + R * (pos - ref)
-        ok = not ps[0]["guards"] and isinstance(ps[0]["value"], Matrix) and (ps[0]["value"] - want_pos).applyfunc(sp.expand) == sp.zeros(3, 1)
-        why = "the position becomes %s, not ref + R (pos - ref)" % str(ps[0]["value"])[:120]
+        last = ps[-1]
+        ok = not any(e_["guards"] for e_ in ps) and isinstance(last["value"], Matrix) and (last["value"] - want_pos).applyfunc(sp.expand) == sp.zeros(3, 1)
+        why = "the position becomes %s, not ref + R (pos - ref)" % str(last["value"])[:120]
+    if ok:
+        # callers rotate a segment about one of its own sites (Rotate(R, site.getPos())): the reference point is a reference parameter that may BE pos_, so it
+        # must not be read in a statement after the first one that writes pos_
+        pdecl = f.j["params"][1]["decl"]
+        by_ref = (f.j["params"][1].get("type") or "").rstrip().endswith("&")
+        body = f.j["body"].get("stmts") or []
+        first_w = None
+        for i_, st_ in enumerate(body):
+            wr_ = any((x.get("k") in ("assign",) and any(y.get("k") == "member" and y.get("fname") == "pos_" for y in walk(x["lhs"]))) or
+                      (x.get("k") == "opcall" and x.get("op") in ("=", "+=", "-=", "*=") and x.get("args") and any(y.get("k") == "member" and y.get("fname") == "pos_" for y in walk(x["args"][0])))
+                      for x in walk(st_))
+            if wr_:
+                first_w = i_
+                break
+        if by_ref and first_w is not None:
+            late = [x for st_ in body[first_w + 1:] for x in walk(st_) if x.get("k") == "ref" and x.get("decl") == pdecl]
+            if late:
+                ok, why = False, ("the reference point (a reference parameter) is read again after pos_ has been modified: when a site is rotated about its own position "
+                                  "(Rotate(R, site.getPos())) the two are the same object, the site collapses onto the origin and sites rotated afterwards pivot about (0,0,0)")
     if ok:
         rk = S("rank_")
         for r_ in (0, 1, 2):
